@@ -131,7 +131,8 @@ def map_key(schema, katt, k):
     return k
 
 
-def enc_val(schema, att, v):
+def enc_val(schema, att, v, string_keys=False):
+    """string_keys: encode map keys as the strings they are in JSON (what a schema sees) instead of typed by the key attribute"""
     if v is None:
         return ["_"]
     a = schema.resolve(att) if att else {}
@@ -160,18 +161,21 @@ def enc_val(schema, att, v):
     if isinstance(v, list):
         out = ["a", str(len(v))]
         for x in v:
-            out += enc_val(schema, t.get("array") or PLACEHOLDER, x)
+            out += enc_val(schema, t.get("array") or PLACEHOLDER, x, string_keys)
         return out
     if isinstance(v, dict):
         if t.get("map_key"):
             out = ["m", str(len(v))]
             for k, x in v.items():
-                out += enc_val(schema, t["map_key"], map_key(schema, t["map_key"], k)) + enc_val(schema, t["map_elem"], x)
+                if string_keys:
+                    out += ["s", hx(str(k)), "1", "1"] + enc_val(schema, t["map_elem"], x, string_keys)
+                else:
+                    out += enc_val(schema, t["map_key"], map_key(schema, t["map_key"], k)) + enc_val(schema, t["map_elem"], x)
             return out
         fields = dict(schema.fields(a)) if (t.get("is_object") or t.get("object")) else {}
         out = ["o", str(len(v))]
         for k, x in v.items():
-            out += [hx(k)] + enc_val(schema, fields.get(k) or PLACEHOLDER, x)
+            out += [hx(k)] + enc_val(schema, fields.get(k) or PLACEHOLDER, x, string_keys)
         return out
     raise Skip("value %r" % (v,))
 
